@@ -203,3 +203,134 @@ Proof.
 Qed.
 
 End Hist.
+
+(* ---------- the same over [run_history]: define the rules, start an engine, then any rule-edit-free history ---------- *)
+
+Definition rule_ops (l : list (key * rule)) : list op := map (fun p => ORule (fst p) (snd p)) l.
+
+Section RunHistory.
+Variable F : key -> N -> list value -> list N -> N -> N.
+Variable order : N -> key -> list dep -> list dep.
+Variable fuel : nat.
+
+Lemma fold_rule_ops : forall l h, fold_left (hstep F order fuel) (rule_ops l) h =
+  mkH (h_st h) (h_env h) (h_rules h) (rev l ++ h_pending h).
+Proof.
+  induction l as [|[k r] l IH]; intros h; cbn [rule_ops map fold_left rev app].
+  - now destruct h.
+  - fold (rule_ops l). rewrite IH. cbn. now rewrite <- app_assoc.
+Qed.
+
+Lemma run_history_start : forall defs db,
+  HInv (rev defs) F (fold_left (hstep F order fuel) (rule_ops defs ++ [ORestart db]) init_h).
+Proof.
+  intros defs db. rewrite fold_left_app, fold_rule_ops. cbn. rewrite app_nil_r.
+  unfold HInv; cbn [h_rules h_pending h_st]. split; [reflexivity|]. split; [reflexivity|].
+  apply AtRest_emit. destruct db.
+  - apply AtRest_restart. apply AtRest_init.
+  - apply AtRest_restart_nodb.
+Qed.
+
+Theorem c01_run_history_thm : forall rank defs db ops k,
+  wf_rank (rules_of (rev defs)) rank -> wf_disc (rules_of (rev defs)) -> wf_order order ->
+  Forall no_rule_op ops -> Forall (build_ranked rank fuel) ops -> (rank k < fuel)%nat ->
+  let h := run_history F order fuel (rule_ops defs ++ ORestart db :: ops) in
+  exists s1, h_st (run_history F order fuel (rule_ops defs ++ ORestart db :: ops ++ [OBuild k])) =
+             emit s1 (EResult (cv (rules_of (rev defs)) (env_of (h_env h)) F fuel k) false).
+Proof.
+  intros rank defs db ops k Hrank Hdisc Horder Hno Hbr Hk h. subst h. unfold run_history.
+  replace (rule_ops defs ++ ORestart db :: ops ++ [OBuild k])
+     with ((rule_ops defs ++ [ORestart db]) ++ ops ++ [OBuild k]) by (now rewrite <- app_assoc).
+  replace (rule_ops defs ++ ORestart db :: ops)
+     with ((rule_ops defs ++ [ORestart db]) ++ ops) by (now rewrite <- app_assoc).
+  pose proof (run_history_start defs db) as Hstart. set (pre := rule_ops defs ++ [ORestart db]) in *.
+  rewrite (fold_left_app _ pre (ops ++ [OBuild k])), (fold_left_app _ pre ops), (fold_left_app _ ops [OBuild k]).
+  cbn [fold_left].
+  apply c01_every_build_clean_thm with (rank := rank) (tbl := rev defs); auto.
+Qed.
+
+End RunHistory.
+
+(* ---------- decidable versions of the hypotheses for rule tables ---------- *)
+
+Definition rank_of (l : list (key * nat)) (k : key) : nat := match alookup l k with Some n => n | None => O end.
+Definition wf_rank_b (tbl : list (key * rule)) (rank : key -> nat) : bool :=
+  forallb (fun p => forallb (fun x => Nat.ltb (rank x) (rank (fst p))) (mentioned (snd p))) tbl.
+Definition wf_disc_b (tbl : list (key * rule)) : bool :=
+  forallb (fun p => forallb (fun d => r_obs (rules_of tbl d)) (r_disc (snd p))) tbl.
+
+Lemma alookup_in : forall {A} (m : list (N * A)) k a, alookup m k = Some a -> In (k, a) m.
+Proof.
+  intros A m k a. induction m as [|[k' a'] t IH]; cbn [alookup]; [discriminate|].
+  destruct (N.eqb k k') eqn:E.
+  - apply N.eqb_eq in E. subst k'. intros H. inversion H. now left.
+  - intros H. right. now apply IH.
+Qed.
+
+Lemma rules_of_cases : forall tbl k, rules_of tbl k = default_rule \/ In (k, rules_of tbl k) tbl.
+Proof.
+  intros tbl k. unfold rules_of. destruct (alookup tbl k) as [r|] eqn:E; [right | now left].
+  now apply alookup_in.
+Qed.
+
+Lemma wf_rank_b_sound : forall tbl rank, wf_rank_b tbl rank = true -> wf_rank (rules_of tbl) rank.
+Proof.
+  intros tbl rank H k x Hx. destruct (rules_of_cases tbl k) as [Hd|Hin].
+  - rewrite Hd in Hx. contradiction Hx.
+  - unfold wf_rank_b in H. rewrite forallb_forall in H. specialize (H _ Hin). cbn [fst snd] in H.
+    rewrite forallb_forall in H. specialize (H x Hx). now apply Nat.ltb_lt in H.
+Qed.
+
+Lemma wf_disc_b_sound : forall tbl, wf_disc_b tbl = true -> wf_disc (rules_of tbl).
+Proof.
+  intros tbl H k d Hd. destruct (rules_of_cases tbl k) as [Hdf|Hin].
+  - rewrite Hdf in Hd. contradiction Hd.
+  - unfold wf_disc_b in H. rewrite forallb_forall in H. specialize (H _ Hin). cbn [fst snd] in H.
+    rewrite forallb_forall in H. now apply H.
+Qed.
+
+Lemma wf_order_id : wf_order (fun _ _ l => l).
+Proof. intros e k l. apply Permutation_refl. Qed.
+
+Lemma wf_order_rev : wf_order (fun _ _ l => rev l).
+Proof. intros e k l. apply Permutation_rev. Qed.
+
+(* ---------- a non-trivial instance ---------- *)
+
+(* 1,2,3,5,7: leaves observing external state; 4 requests 1 and 2 and then 3 or 5 depending on the parity of slot 0;
+   6 requests 4, requests 2 single-use, must follow 5, and reports the discovered dependency 7; 8 requests 6 and 1 *)
+Definition ex_defs : list (key * rule) :=
+  [ (1, mkRule 10 true [] [] [] None []);
+    (2, mkRule 20 true [] [] [] None []);
+    (3, mkRule 30 true [] [] [] None []);
+    (5, mkRule 50 true [] [] [] None []);
+    (7, mkRule 70 true [] [] [] None []);
+    (4, mkRule 40 false [1; 2] [] [] (Some (0%nat, [3], [5])) []);
+    (6, mkRule 60 false [4] [2] [5] None [7]);
+    (8, mkRule 80 true [6; 1] [] [] None []) ].
+Definition ex_rank : key -> nat := rank_of [(4, 1%nat); (6, 2%nat); (8, 3%nat)].
+Definition ex_order (e : N) (k : key) (l : list dep) : list dep := if N.even e then rev l else l.
+
+Lemma ex_wf_rank : wf_rank (rules_of (rev ex_defs)) ex_rank.
+Proof. apply wf_rank_b_sound. vm_compute. reflexivity. Qed.
+Lemma ex_wf_disc : wf_disc (rules_of (rev ex_defs)).
+Proof. apply wf_disc_b_sound. vm_compute. reflexivity. Qed.
+Lemma ex_wf_order : wf_order ex_order.
+Proof. intros e k l. unfold ex_order. destruct (N.even e); [apply Permutation_rev | apply Permutation_refl]. Qed.
+
+(* a history: external changes, builds of several targets, a restart over the database *)
+Definition ex_ops : list op :=
+  [OSet 1 5; OSet 2 7; OBuild 6; OSet 1 6; OBuild 8; OSet 7 3; OBuild 4; ORestart true; OSet 2 1; OBuild 8;
+   OSet 3 9; OBuild 6; OBuild 8].
+Definition ex_history : list op := rule_ops ex_defs ++ ORestart false :: ex_ops.
+
+(* for every prefix that ends with a build: does the stored result equal the clean value for the environment then? *)
+Definition ex_build_checks : list bool :=
+  flat_map (fun n =>
+    match nth_error ex_history n with
+    | Some (OBuild k) =>
+        let h := run_history mixF ex_order 5 (firstn (S n) ex_history) in
+        [match result_of (h_st h) k, cv (rules_of (rev ex_defs)) (env_of (h_env h)) mixF 5 k with
+         | Some a, Some b => value_eqb a b | _, _ => false end]
+    | _ => []
+    end) (seq 0 (length ex_history)).
